@@ -32,11 +32,55 @@ CLAIMS = {
     ),
 }
 
+
+PIPE_NOTE = ("Abstract chemistry: RDKit, joblib, pandas tracing, MCS search, merge, functional-group lookup and the confidence model are stubs with stated contracts "
+             "(evidence.coverage.stubs); bounds: 1-2 rows, <= 3 molecules per side, element counts 0..2 over {C,H} (thorough adds {C,H,O}), charge -1..1, rule database restricted to 6 shipped records. "
+             "Trusted: CrossHair's path-exhaustion claim, z3.")
+PIPE_TECH = "bounded symbolic execution of the real Balancer pipeline on an abstract-chemistry stub world (CrossHair + z3), path-exhaustive per partition; counterexamples replayed concretely"
+CLAIMS.update({
+    "C01": dict(technique=PIPE_TECH, ref="3/C01", note=PIPE_NOTE,
+        text="The whole real pipeline (three validators, rule-based stage, MCS attach/impute, reagent post-processing, second rule-based run, final validation, confidence filter) runs on symbolic compositions, charges and environment outcomes; every row returned with solved=True must parse and have equal true composition and charge on both sides, computed by the harness from the world. Known finding (reagent template balanced only with coefficients) is excluded by region and its specified deviation is checked instead; its concrete witness is replayed on the real code."),
+    "C02": dict(technique=PIPE_TECH, ref="3/C02", note=PIPE_NOTE,
+        text="Same symbolic pipeline run; oracle on token multisets: per side every input molecule is present in the output with at least its multiplicity and every extra token is a complete molecule of the universe (rule/template compounds, water, H2, placeholders, merge result); input_reaction equals the given reaction. Shapes include inputs that contain the marker substrings ([H][H], OO, O)."),
+    "C03": dict(technique=PIPE_TECH, ref="3/C03", note=PIPE_NOTE,
+        text="Same symbolic pipeline run at the default threshold; for every combination of stage outcomes an unsolved row has reaction == input_reaction and a non-empty issue, a solved row names one of the three methods with an empty/absent issue, and a row whose products hold more carbon than its reactants is unsolved."),
+    "C04": dict(technique=PIPE_TECH, ref="3/C04", note=PIPE_NOTE,
+        text="Same symbolic pipeline run; if the true compositions and charges of the two input sides are equal (a solver constraint over the symbolic counts, not a sample) the row is solved by input-balanced and returned unchanged; conversely an input-balanced label implies a balanced input and an unchanged reaction. The balance verdict itself is the C07 kernels."),
+    "C05": dict(technique="bounded symbolic execution of Balancer.rebalance with DataLoader/Dataset and the real pipeline; row classes, batch size and input form solver-chosen (CrossHair + z3)", ref="3/C05",
+        note=PIPE_NOTE + " Known findings C05-unparsable-row-dropped and C05-bad-separator-loses-batch are excluded by region with their specified deviation; CSV/JSON readers and the CLI are outside.",
+        text="n <= 3 rows, each symbolically one of 10 classes (valid, 7 malformed kinds, rule-solvable, duplicate), symbolic batch size, list/dict/Dataset input: exactly the expected rows come back in order, each describing its input. Batching kernel (DataLoader) with symbolic n <= 6 and batch size separately. Outside the two known regions the full property is required; inside, exactly the specified deviation."),
+    "C15": dict(engine="smt", technique="z3 regular-expression inclusion and linear-integer queries generated from the regex literals in the current source; cvc5 cross-check on thorough; sat models replayed on the real function and RDKit", ref="3/C15",
+        note="Python re semantics reduced to: matches start at the literal first character, longest match for the checked pattern shape; OpenSMILES bracket-atom grammar with RDKit's element table; valence lists from RDKit.",
+        text="For every bracket atom of the OpenSMILES grammar (unbounded field lengths, whole periodic table) the first substitution deletes exactly the class field and nothing else, the second unbrackets only plain organic-subset atoms and puts back exactly the symbol, and (integer query) a closed-shell atom keeps its hydrogen count unless it lies in the recorded known region (hypervalent hydrides); outside brackets the first regex never fires except in the recorded aromatic-bond region. Appended compounds are scanned for class fields."),
+    "C17": dict(engine="xh+smt", technique="z3 query on the extracted sort-key lambda with uninterpreted components (injectivity); bounded symbolic execution of normalize_smiles / wc_similarity with canonicalisation and fingerprints stubbed (CrossHair + z3)", ref="3/C17",
+        note="RDKit canonicalisation idempotent and spelling-independent, Tanimoto/Dice symmetric into [0,1] (stub contracts); token pool of 7 with anagram pairs.",
+        text="unsat of 'exists x != y with equal key' shows for all strings that the sort in normalize_smiles is a total order on distinct tokens, hence permutation-invariant; the real functions are then run on solver-chosen token selections and permutations: equal outputs, idempotence, similarity 1 for order variants, symmetry and range."),
+    "C10": dict(technique="bounded symbolic execution of get_largest_condition per table shape with unbounded symbolic atom counts, and of MCSSearch.find with solver-chosen solved flags and search outcomes (CrossHair + z3)", ref="3/C10",
+        note="Selection and attribution only. MolFromSmarts atom counts, ensemble_mcs and find_graph_dict are stubs; containment of the substructure and the molecule list are RDKit FindMCS and are outside the claim.",
+        text="Every table shape of 3 conditions x n<=2 rows x 0..2 patterns is a partition with all pattern atom counts as unbounded solver integers: the retained entry is the entry object of a condition with the maximal total at that row, one per row in order, a unique non-zero maximum is always retained. MCSSearch.find on 4 rows with symbolic solved flags / search failures attaches to each reaction the record produced from its own entry (id map vs positional zip)."),
+    "C06": dict(technique=PIPE_TECH + "; metamorphic comparison of groupings inside one symbolic path", ref="3/C06", note=PIPE_NOTE + " Stubs are keyed by reaction content so that the same reaction meets the same environment in every grouping; worker counts are outside.",
+        text="The same two reactions are run as [r1,r2], [r2,r1], [r1], [r2] and as two batches of one in a single symbolic path (r1 symbolic, r2 a fixed representative of each outcome class): every row field is identical in all groupings and the statistics of a grouping equal the key-wise sum of its parts; merge_stats is proved as a kernel with unbounded integers and symbolic key presence."),
+    "C11": dict(technique="bounded symbolic execution of the real MCS stage inside the pipeline with a thread-pool shim (timeouts, zombie completion at call boundaries) and failing job bodies; fault patterns enumerated as partitions, compositions symbolic (CrossHair + z3)", ref="3/C11",
+        note=PIPE_NOTE + " ThreadPool, MCSMissingGraphAnalyzer.fit and find_missing_parts_pairs are outcome stubs; pre-emption inside a call and worker processes are outside.",
+        text="ensemble_mcs, single_mcs_safe, single_mcs, get_largest_condition, find_graph_dict and its per-pair wrapper, GraphMissingUncertainty, MCSSearch.find, impute_reaction and MCSBasedMethod.run are real code on the path. For each fault pattern of one row (search jobs ok/timeout/raise/uncertain, analysis job ok/timeout/raise, merge ok/raise, zombie completing at one of 5 boundaries) and both row orders: no row lost, each row solved-and-balanced or unchanged with an issue, and the fault-free neighbour identical to the fault-free run."),
+    "C12": dict(technique="bounded symbolic execution of rebalance/__rebalance_batch/__try_cache and CacheManager over an in-memory file system with a symbolic crash point per write() (CrossHair + z3)", ref="3/C12",
+        note="Pipeline replaced by a pure function of (row, threshold); os/open of batching replaced by an in-memory FS (truncate-on-open, append-on-write); json and hashlib real. Known findings C12-cache-key-omits-configuration and C12-truncated-entry-raises are excluded by region with their specified deviation.",
+        text="Histories of 2 (thorough 3) runs with solver-chosen layouts, batch sizes, thresholds and confidences, optionally one run killed at the k-th write() of a cache entry (every prefix incl. empty and complete): every completed run returns rows and stats equal to the same call without cache and does not raise, except exactly the two recorded deviations (stale entry under another threshold; truncated entry raises)."),
+    "C14": dict(technique=PIPE_TECH + "; two spellings of one reaction compared inside one symbolic path", ref="3/C14", note=PIPE_NOTE + " Equivalent spellings of abstract molecules are alias tokens; RDKit canonicalisation is outside. Known finding C14-substring-marker-order-sensitive is excluded by region.",
+        text="Permutations within a side, alias spellings, atom-map decoration and [HH] vs [H][H] of one reaction are run through the real pipeline with shared symbolic compositions: whenever one spelling ends input-balanced or rule-based the other ends with the same verdict, method and multiset of added molecules. The marker-substring tests of the rule constraint step run as real code on the real marker molecules."),
+    "C20": dict(technique="bounded symbolic execution of standardize_enol / standardize_hemiketal on a fake molecule with symbolic atom numbering (CrossHair + z3)", ref="3/C20",
+        note="Narrow claim: independence of the atom order only. Composition conservation, parsability, idempotence are RDKit and are not decided. Known finding C20-enol-roles-by-index-distance excluded by region.",
+        text="For every numbering of the three group atoms in a molecule of <= 8 atoms and every order of the index list, the recorded bond edits are exactly the tautomerisation on the atoms that truly play the roles and the error text is never returned, outside the recorded region (roles picked by index distance)."),
+    "C18": dict(technique=PIPE_TECH, ref="3/C18", note=PIPE_NOTE,
+        text="Balancer.rebalance(stats=...) on one symbolic row and on two-row batches (second row a fixed representative of each outcome class, both orders, one or two batches): the five relations of the statement are recomputed by the harness from the returned rows and from a ghost record of the rows that entered the MCS stage."),
+})
+
 NOT_APPLICABLE = {
     "C09": "the claim is RDKit graph editing + sanitisation + canonicalisation (merge reconstructs the cut molecule); stubbing those calls removes exactly what is claimed and there is no SMT model of RDKit (DESIGN.md 4)",
     "C16": "labelled-graph matcher: no arithmetic for a solver, symbolic execution degenerates into one path per graph (4-atom probe not exhausted in 300 s); a direct SMT encoding would be a re-implementation (DESIGN.md 4)",
 }
 
+HOLD = {"C06", "C11", "C14"}  # claims written but not yet registered (not yet conclusive on the unchanged tree)
 PENDING = "check under construction in this round; not claimed until it is conclusive on the unchanged tree"
 
 
@@ -46,7 +90,7 @@ def main():
     na = []
     for p in props:
         pid = p["id"]
-        if pid in CLAIMS:
+        if pid in CLAIMS and pid not in HOLD:
             c = CLAIMS[pid]
             checks.append({
                 "property_id": pid,
@@ -72,9 +116,9 @@ def main():
             "add_only": True,
         },
         "engines": [
-            {"name": "xh", "path": "vf/engine_xh.py", "serves_properties": sorted(k for k, v in CLAIMS.items() if v.get("engine", "xh") in ("xh", "xh+smt")),
+            {"name": "xh", "path": "vf/engine_xh.py", "serves_properties": sorted(k for k, v in CLAIMS.items() if v.get("engine", "xh") in ("xh", "xh+smt") and k not in HOLD),
              "kind_free_text": "symbolic execution of the real Python functions with CrossHair 0.0.110 + z3 5.1.0, partitions on a 16-process pool, verdict = path exhaustion"},
-            {"name": "smt", "path": "vf/engine_smt.py", "serves_properties": sorted(k for k, v in CLAIMS.items() if v.get("engine") in ("smt", "xh+smt")),
+            {"name": "smt", "path": "vf/engine_smt.py", "serves_properties": sorted(k for k, v in CLAIMS.items() if v.get("engine") in ("smt", "xh+smt") and k not in HOLD),
              "kind_free_text": "z3 queries generated from the current source (regex literals via re._parser, sort-key lambda, tables), cvc5 cross-check on thorough"},
         ],
         "checks": checks,
